@@ -799,8 +799,13 @@ func (b *boundsAn) isGuarded(v ssa.Value, at *ssa.BasicBlock, kind guardKind, de
 		if kind == gUpper && len(x.Edges) == 2 && phiIsMin(x) {
 			return b.isGuarded(x.Edges[0], x.Block(), kind, depth+1) || b.isGuarded(x.Edges[1], x.Block(), kind, depth+1)
 		}
-		for _, e := range x.Edges {
-			if !b.isGuarded(e, x.Block(), kind, depth+1) {
+		for i, e := range x.Edges {
+			// what is known about an incoming value is what holds at the end of the block it comes from
+			at2 := x.Block()
+			if i < len(at2.Preds) {
+				at2 = at2.Preds[i]
+			}
+			if !b.isGuarded(e, at2, kind, depth+1) && !b.isGuarded(e, x.Block(), kind, depth+1) {
 				return false
 			}
 		}
@@ -811,6 +816,10 @@ func (b *boundsAn) isGuarded(v ssa.Value, at *ssa.BasicBlock, kind guardKind, de
 				if _, f, _, ok := fieldOfAddr(fa); ok {
 					return b.fieldValidated(f, kind)
 				}
+			}
+			// a local that a closure captures lives in a cell: what is known about the value stored once holds for its loads
+			if sts := cellStores(x.X); len(sts) == 1 {
+				return b.isGuarded(sts[0].Val, sts[0].Block(), kind, depth+1)
 			}
 		}
 	case *ssa.Field:
